@@ -882,6 +882,13 @@ if not body_n.startswith(PIN_WF):
 rest_wf = body_n[len(PIN_WF):]
 if not rest_wf.startswith("win_stack_result.or_else(||{") or "walk_with_stack_cfi" not in rest_wf:
     die("SymbolFile::walk_frame: STACK CFI is no longer tried exactly when STACK WIN failed: " + rest_wf[:300])
+# second pass of round 5: the fallback closure itself — nothing but the STACK CFI lookup at the same address decides
+# whether STACK CFI is tried (the add_rules selection inside belongs to C06 and is not pinned here)
+PIN_CFI_HEAD = norm("win_stack_result.or_else(|| { if let Some(info) = self.cfi_stack_info.get(addr) {")
+PIN_CFI_TAIL = norm("walker::walk_with_stack_cfi(&info.init, &info.add_rules[0..count], walker) } else { None } })")
+if not rest_wf.startswith(PIN_CFI_HEAD) or not rest_wf.endswith(PIN_CFI_TAIL) or rest_wf.count("return") != 0 \
+        or rest_wf.count("walk_with_stack_") != 1:
+    die("SymbolFile::walk_frame: the STACK CFI fallback is no longer `cfi_stack_info.get(addr)` -> walk_with_stack_cfi / None: " + rest_wf[:400])
 
 
 def indent(code, n):
